@@ -65,6 +65,12 @@ pub fn start_event_streaming(
     (tx, end_fut)
 }
 
+fn is_size_limit_error(error: &anyhow::Error) -> bool {
+    error
+        .downcast_ref::<bincode::Error>()
+        .is_some_and(|e| matches!(**e, bincode::ErrorKind::SizeLimit))
+}
+
 async fn streaming_process(
     mut writer: JournalWriter,
     mut receiver: EventStreamReceiver,
@@ -83,8 +89,18 @@ async fn streaming_process(
                     Some(EventStreamMessage::Event(event)) => {
                         log::trace!("Event: {event:?}");
                         let end = matches!(event.payload, EventPayload::ServerStop);
-                        writer.store(event)?;
-                        events += 1;
+                        if let Err(error) = writer.store(event) {
+                            if !is_size_limit_error(&error) {
+                                return Err(error);
+                            }
+                            // The size of a record is checked before anything is written,
+                            // so the journal is intact and the following events can be stored
+                            log::error!(
+                                "Event is too large for the journal, it is not stored: {error:?}"
+                            );
+                        } else {
+                            events += 1;
+                        }
                         if end {
                             writer.flush()?;
                             break
